@@ -211,7 +211,12 @@ func init() {
 		w := wpOf(st)
 		wasEmpty := w.cl.VerifOutboundQty() == 0
 		w.seq++
-		if !w.cl.VerifEnqueue(wpPacketSeq(atoi(a[0]), w.seq)) {
+		pk := wpPacketSeq(atoi(a[0]), w.seq)
+		if len(a) > 1 && a[1] == "expired" { // an MQTT 5 message whose expiry time lies in the past: the write path sends it all the same
+			pk.ProtocolVersion = 5
+			pk.Expiry = 1
+		}
+		if !w.cl.VerifEnqueue(pk) {
 			return w.render("full")
 		}
 		if wasEmpty { // the write loop dequeues at once and parks at the yield point
@@ -264,7 +269,11 @@ func init() {
 				size := pick(r, []int{5, 6, 7, 9, 12, 13, 15, 20, 21, 30, 41, 64, 129, 131, 200})
 				switch x := r.Intn(10); {
 				case x < 4:
-					emit(fmt.Sprintf("wp.enq %d", size))
+					if r.Intn(5) == 0 {
+						emit(fmt.Sprintf("wp.enq %d expired", size))
+					} else {
+						emit(fmt.Sprintf("wp.enq %d", size))
+					}
 					queued++
 				case x < 8 && queued > 0:
 					emit("wp.loop")
